@@ -66,7 +66,21 @@ def from_ast(node, env, bound=()):
     if isinstance(node, ast.Attribute):
         return ('attr', f(node.value), node.attr)
     if isinstance(node, ast.Subscript):
-        return ('sub', f(node.value), f(node.slice))
+        base = f(node.value)
+        if base[0] == 'dict' and base[1] and not isinstance(node.slice, ast.Slice) and \
+                all(k[0] in ('attr', 'const', 'enum') and k != ('const', '**') for k, _ in base[1]) and \
+                len({k for k, _ in base[1]}) == len(base[1]):
+            # {K1: v1, K2: v2}[key]  ->  v1 if key == K1 else v2 if key == K2 else <KeyError>
+            key = f(node.slice)
+            out = ('undef',)
+            for k, v in reversed(base[1]):
+                out = ('ifexp', ('cmp', '==', key, k), v, out)
+            return out
+        return ('sub', base, f(node.slice))
+    if isinstance(node, ast.Lambda):
+        a = node.args
+        if not (a.vararg or a.kwarg or a.kwonlyargs or a.defaults or a.posonlyargs):
+            return ('localfn', tuple(x.arg for x in a.args), node.body, EnvBox(env))
     if isinstance(node, ast.Slice):
         g = lambda n: ('const', None) if n is None else f(n)
         return ('slice', g(node.lower), g(node.upper), g(node.step))
@@ -76,6 +90,8 @@ def from_ast(node, env, bound=()):
         kwargs = tuple((k.arg if k.arg is not None else '**', f(k.value)) for k in node.keywords)
         if fn[0] == 'localfn':
             return _apply_localfn(fn, args, kwargs, env)
+        if fn[0] == 'ifexp' and _all_leaves_localfn(fn):
+            return _apply_over_ifexp(fn, args, kwargs, env)
         return ('call', fn, args, kwargs)
     if isinstance(node, ast.BinOp):
         return ('bin', BINOPS[type(node.op)], f(node.left), f(node.right))
@@ -132,9 +148,34 @@ def from_ast(node, env, bound=()):
         return ('opaque', type(node).__name__)
 
 
+def _all_leaves_localfn(e):
+    if e[0] == 'ifexp':
+        return _all_leaves_localfn(e[2]) and _all_leaves_localfn(e[3])
+    return e[0] in ('localfn', 'undef')
+
+
+def _apply_over_ifexp(e, args, kwargs, env):
+    if e[0] == 'ifexp':
+        return ('ifexp', e[1], _apply_over_ifexp(e[2], args, kwargs, env), _apply_over_ifexp(e[3], args, kwargs, env))
+    if e[0] == 'undef':
+        return e
+    return _apply_localfn(e, args, kwargs, env)
+
+
+class EnvBox:
+    """Definition-time environment of a lambda; hashed by identity so that IR tuples holding it stay hashable."""
+    __slots__ = ("env",)
+
+    def __init__(self, env):
+        self.env = dict(env)
+
+    def __repr__(self):
+        return "<env>"
+
+
 def _apply_localfn(fn, args, kwargs, env):
     _, params, body, fenv = fn
-    e = dict(fenv)
+    e = dict(fenv.env if isinstance(fenv, EnvBox) else fenv)
     for p, a in zip(params, args):
         e[p] = a
     for k, v in kwargs:
